@@ -205,7 +205,7 @@ class ModbusSparseDataBlock(BaseModbusDataBlock):
         :param values: Either a list or a dictionary of values
         '''
         if isinstance(values, dict):
-            self.values = values
+            self.values = dict(values)
         elif hasattr(values, '__iter__'):
             self.values = dict(enumerate(values))
         else: raise ParameterException(
